@@ -46,19 +46,19 @@ TAGS = {
 }
 CORR = (1, 2, 4, 5, 6, 21, 22, 23, 24)
 ORACLE = (11, 12, 13, 14, 15, 31, 32, 33, 34, 35, 41, 42, 43, 44, 45, 46, 47, 48)
-GUARD_NAMES = {201: 'g_plain_layout', 202: 'g_xn_uniform', 203: 'g_xn_nofix', 204: 'g_spaced', 205: 'g_repr',
+GUARD_NAMES = {201: 'g_plain_layout', 202: 'g_xn_uniform', 203: 'g_xn_nofix', 205: 'g_repr',
                206: 'g_count', 207: 'g_rm_single', 208: 'g_removed_unnamed', 209: 'g_names', 210: 'g_bounds_canonical',
                221: 'g_plain_item', 222: 'g_oxn', 223: 'g_sd_exact', 224: 'g_orepr', 226: 'g_ocount', 227: 'g_block_scale_exact', 241: 'c_default_names_in_place', 242: 'c_block_fix_uniform',
                244: 'c_no_item_leaves_a_multi_item_record', 245: 'c_no_scaled_record', 246: 'c_no_xn_repeat',
                299: 'plan_error'}
 # guard conjunct -> finding id (conjuncts without an entry describe unrepresentable inputs, not defects)
-FINDING_OF = {202: 'C04-THETA-XN-EDIT', 203: 'C04-THETA-XN-FIX', 204: 'C04-THETA-GLUED-RPAR',
+FINDING_OF = {202: 'C04-THETA-XN-EDIT', 203: 'C04-THETA-XN-FIX',
               201: 'C04-THETA-EXOTIC-LAYOUT', 207: 'C04-THETA-REMOVE-XN', 208: 'C04-THETA-REMOVE-COMMENT',
               209: 'C04-THETA-NAMES-SHIFT', 210: 'C04-THETA-BOUND-RESPELL', 222: 'C04-OMEGA-XN-SPLIT', 223: 'C04-OMEGA-SCALE-INEXACT', 227: 'C04-OMEGA-SCALE-INEXACT',
               241: 'C04-OMEGA-NAMES-SHIFT', 242: 'C04-OMEGA-BLOCK-FIX-LOST', 244: 'C04-OMEGA-DIAG-ITEM-REMOVED',
               245: 'C04-OMEGA-SCALE-INEXACT', 246: 'C04-OMEGA-XN-SPLIT'}
 # which false guard conjuncts can explain which oracle tag
-EXPLAINS = {11: (201, 202, 203, 204, 205, 207, 208), 12: (201, 202, 203, 205, 207), 14: (201, 202, 207, 206),
+EXPLAINS = {11: (201, 202, 203, 205, 207, 208), 12: (201, 202, 203, 205, 207), 14: (201, 202, 207, 206),
             15: (208, 209, 207, 202), 13: (210, 201, 202, 207),
             31: (221, 222, 224), 32: (221, 222, 223, 224, 227), 33: (221, 222, 223, 227), 34: (221, 226), 35: (221, 222),
             41: (244, 246), 42: (244, 246), 43: (244, 246), 44: (245, 244, 246), 45: (244, 246), 48: (242, 244, 246), 46: (241, 244, 246),
@@ -371,7 +371,7 @@ def run(ctx):
         'CPython float functions (float(str), str(float), format_number, ** 0.5, ** 2) are tabulated per case from the '
         'running interpreter; the contract float(str(x)) == x assumed by the theorems is re-checked on every tabulated value',
         'lark (LALR parser + contextual lexer) is an engine: its acceptance of regenerated text is modelled by '
-        'reparse_ok (theta grammar + the observed ")x2" lexer quirk) and validated on every case (tag 4)',
+        'reparse_ok (theta grammar + numeric-token adjacency) and validated on every case (tags 4, 6)',
     ]
     ctx.assumptions += [
         'token texts and names are ASCII; numeric tokens have at most 15 significant digits',
